@@ -46,12 +46,14 @@ func plans(thorough bool) []planT {
 	hB := []string{"vote1", "u-storage2", "max-traceable", "u-storage", "u-storage2", "unvote1", "u-storage"}
 	hC := []string{"deploy-uc", "u-storage", "deploy-uc", "destroy-ub", "u-storage2", "u-storage", "deploy-uc"}
 	// hS: UB = {a:1} and UC = {a:1} at heights 6..7 (a shared inner node), UC changes at 8, UB dies at 9
-	hS := []string{"deploy-uc", "ub-a1", "uc-a1", "u-storage", "uc-a2", "destroy-ub", "u-storage2"}
+	// (a shared inner node under ONE parent); ua-shared-inner adds one under TWO different parents
+	hS := []string{"deploy-uc", "ub-a1", "uc-a1", "ua-shared-inner", "uc-a2", "ua-unshare", "u-storage2"}
 	if !thorough {
 		return []planT{
 			{i2, hA, []ptT{{7, 5}}, []string{"mpt"}, []string{"lo", "rdfs"}, q},
 			{i2, hA, []ptT{{5, 0}}, []string{"mpt"}, []string{"lo"}, q},
 			{i2, hB, []ptT{{9, 5}}, []string{"mpt"}, []string{"dfs"}, q},
+			{i2, hS, []ptT{{9, 5}}, []string{"mpt"}, []string{"bfs"}, q},
 			{i2, hS, []ptT{{7, 5}}, []string{"mpt"}, []string{"hi"}, q},
 			{i2, hA, []ptT{{7, 5}}, []string{"items"}, []string{"-"}, qi},
 		}
@@ -67,7 +69,7 @@ func plans(thorough bool) []planT {
 	i3 := famT{Name: "single-i3-mtb3", I: 3, MTB: 3, Pad: 1}
 	i4 := famT{Name: "single-i4-mtb2", I: 4, MTB: 2, Pad: 2}
 	m2 := famT{Name: "multi-i2-mtb2", I: 2, MTB: 2, Multi: true}
-	all := []string{"lo", "hi", "dfs", "rdfs"}
+	all := []string{"lo", "hi", "dfs", "rdfs", "bfs"}
 	hD := []string{"fault-between", "caught-callee", "u-storage2", "gas-to-contract", "u-storage", "destroy-ub", "u-storage"}
 	hE := []string{"u-storage", "vote2+transfer", "policy-fee+tx", "u-storage2", "unvote1", "u-storage", "u-storage2", "vote1"}
 	return []planT{
@@ -139,7 +141,7 @@ func TestCheck(t *testing.T) {
 	for i, c := range confs {
 		x.push(job{c: c, ci: i, budget: c.prof.Budget})
 		cfgNames = append(cfgNames, fmt.Sprintf("%s budget=%d order-cost=%d tail=%d", c.name(), c.prof.Budget, max(1, c.prof.OrderCost), c.prof.Tail))
-		trieInfo[fmt.Sprintf("%s/P%d", c.src.id, c.P)] = map[string]int{"trie_nodes": len(c.trie.Nodes), "nodes_on_several_paths": c.trie.Multi, "inner_nodes_on_several_paths": c.trie.MultiInner, "storage_items": len(c.items), "tip": int(c.src.tip)}
+		trieInfo[fmt.Sprintf("%s/P%d", c.src.id, c.P)] = map[string]int{"trie_nodes": len(c.trie.Nodes), "nodes_on_several_paths": c.trie.Multi, "inner_nodes_on_several_paths": c.trie.MultiInner, "inner_nodes_with_two_parents": c.trie.MultiParent, "storage_items": len(c.items), "tip": int(c.src.tip)}
 	}
 	fmt.Printf("c20/sync: %d configurations, sources built in %.1fs\n", len(confs), r.Elapsed())
 	x.run(r.Workers())
